@@ -1,5 +1,6 @@
 import RpgpModel.Proto
 import RpgpModel.Stream
+import RpgpModel.StreamFail
 import RpgpModel.Utf8
 import RpgpModel.Canon
 import RpgpModel.Gen.Constants
@@ -22,6 +23,19 @@ def handle (op : String) (a : Args) : Option String :=
   | "utf8_literal_accepts" => do
     let cs ← a.list "chunks"
     pure (okBool (utf8CheckChunks utf8ValidUpTo [] cs && crlfCheck cs))
+  | "enc_poll" => do
+    -- a stream encryptor polled `reqs.length` times whatever it answers; evs: 999999999 = the source
+    -- fails once at this point, any other number = a data event of that many octets
+    let b ← a.nat "b"
+    let q ← a.nat "queued"
+    let tr ← a.nat "trailer"
+    let grow ← a.nat "grow"
+    let evs ← a.natList "evs"
+    let reqs ← a.natList "reqs"
+    let src := evs.map fun e => if e = 999999999 then Ev.err else Ev.data (List.replicate e 0)
+    let rs := encPoll b (b + 2) (fun x => x ++ List.replicate grow 0) (List.replicate tr 0)
+      ⟨List.replicate q 0, false, false⟩ src reqs
+    pure ("ok:" ++ ",".intercalate (rs.map fun r => match r with | .fail => "E" | .bytes bs => toString bs.length))
   | _ => none
 
 end Rpgp.Ops.C09
